@@ -196,6 +196,18 @@ class C14(flow.Spec):
             sizes = [0]
         return f"d {algo} {form} {exp} {','.join(map(str, sizes)) if sizes else '-'} {msg.hex() if msg else '-'}"
 
+    def big_line(self, algo, form, n, a, b):
+        """a message given by its length and the byte pattern (a*i + b) & 0xff, passed as one string_view"""
+        pat = bytes((a * i + b) & 255 for i in range(256))
+        h = hashlib.new(algo)
+        blk = pat * 4096
+        full = n // len(blk)
+        for _ in range(full):
+            h.update(blk)
+        rest = n - full * len(blk)
+        h.update((pat * (rest // 256 + 1))[:rest])
+        return f"big {algo} {form} {h.hexdigest()} {n} {a} {b}"
+
     def sip_line(self, rng, variant, key, ka, msg, ma):
         exp = siphash24(key, msg)
         return f"sip {variant} {exp:016x} {ka} {key.hex()} {ma} {msg.hex() if msg else '-'}"
@@ -223,7 +235,7 @@ class C14(flow.Spec):
                 if lines:
                     case(lines)
         # 2. random messages 0..300 with random chunkings
-        nmsg = 260 if quick else 6000
+        nmsg = 600 if quick else 8000
         for _ in range(nmsg):
             lines = []
             for _ in range(4):
@@ -239,6 +251,16 @@ class C14(flow.Spec):
             n = rng.choice([1000, 4096, 4097, 10000]) if quick else rng.choice([1000, 4096, 65535, 65536, 100000, 250001])
             msg = rand_bytes(rng, n)
             case([self.digest_line(rng, algo, rng.choice(["raw", "hex", "sv-HEX", "fn-hex"]), msg, partition(rng, n, BLOCK[algo]))])
+        # 3b. strings beyond the 32-bit size parameter, through the string_view overloads (thorough tier only:
+        #     hashing 4 GiB under ASan takes about a minute); smaller ones in both tiers
+        if round_no == 0:
+            case([self.big_line(rng.choice(ALGOS), rng.choice(["sv-hex", "ctorsv-hex", "fnsv-hex"]),
+                                rng.choice([(1 << 20) + 3, (1 << 22) - 1]), 7, 3)])
+            if not quick:
+                import glob
+                for p in sorted(glob.glob(os.path.join(core.VERIF, "replays", "C14", "corpus_thorough", "*.ops"))):
+                    cs.extend(core.split_cases([l.rstrip("\n") for l in open(p) if l.strip() and not l.startswith("#")]))
+                case([self.big_line("sha1", "sv-hex", (1 << 32) + (1 << 30) + 77, 11, 1)])
         # 4. SipHash: all tail lengths x alignments x variants, random and default keys
         nsip = 150 if quick else 3000
         for i in range(nsip):
@@ -254,6 +276,8 @@ class C14(flow.Spec):
     # ------------------------------------------------------------------ comparison / bookkeeping
     def compare(self, op, impl, model):
         t = op.split()
+        if t and t[0] == "big":
+            return True          # too large for the list-based model; the oracle (hashlib) judges the real code
         if not t or t[0] not in ("d", "sip"):
             return impl == model
         m, sep, spec = model.partition(" # spec=")
